@@ -730,6 +730,19 @@ def _minmax(want_max):
             seq = to_seq(I, ctx, args[0])
         else:
             seq = tuple(args)
+        if 'default' in kwargs and len(args) == 1:
+            # max(xs, default=d): d when xs is empty
+            kw2 = {k: v for k, v in kwargs.items() if k != 'default'}
+            items = items_of(seq)
+            nonempty = Or_(*[g for g, _ in items]) if items else False
+            nb = concrete_bool(nonempty)
+            if nb is False:
+                return kwargs['default']
+            if nb is True:
+                return m(I, ctx, [seq], kw2, node)
+            sub = ctx.fork(nonempty)
+            r = m(I, sub, [seq], kw2, node)
+            return merge_value(nonempty, r, kwargs['default'])
         if key is None and all(concrete_bool(g) is True and (is_num(e) or is_boolish(e)) for g, e in items_of(seq)) and len(seq) > 0:
             out = b2i(seq[0])
             for e in seq[1:]:
@@ -866,9 +879,33 @@ def isinstance_(I, ctx, v, t):
 
 @model(builtins.sorted)
 def m_sorted(I, ctx, args, kwargs, node):
-    if kwargs:
-        raise PyvcUnsupported('sorted with key')
     arg = args[0]
+    if kwargs or not all(is_num(e) or is_boolish(e) for _, e in items_of(to_seq(I, ctx, arg) if not (isinstance(arg, (Ref, Snapshot))
+                                                                          and kind_of(arg) == 'set') else ())):
+        # keys / non-numeric elements: only when everything needed for the order is concrete (CPython sorts)
+        seq = to_seq(I, ctx, arg)
+        if not isinstance(seq, tuple) or set(kwargs) - {'key', 'reverse'}:
+            raise PyvcUnsupported('sorted with key over a symbolic-length sequence')
+        key = kwargs.get('key')
+        keys = [I.call(key, [e], {}, ctx, node) if key is not None else e for e in seq]
+
+        def conc(v):
+            if isinstance(v, tuple):
+                return tuple(conc(x) for x in v)
+            if isinstance(v, z3.ExprRef):
+                c = concrete_int(v)
+                if c is None:
+                    raise PyvcUnsupported('sorted with a symbolic key')
+                return c
+            if not is_concrete(v):
+                raise PyvcUnsupported('sorted with a symbolic key')
+            return v
+        ks = [conc(k) for k in keys]
+        rev = kwargs.get('reverse', False)
+        if not isinstance(rev, bool):
+            raise PyvcUnsupported('sorted with symbolic reverse')
+        order = sorted(range(len(seq)), key=lambda i: ks[i], reverse=rev)
+        return ctx.alloc('list', tuple(seq[i] for i in order))
     if isinstance(arg, (Ref, Snapshot)) and kind_of(arg) == 'set':
         seq = dedupe(I, ctx, set_content(I, ctx, arg))
     else:
